@@ -62,7 +62,9 @@ def r1_one_rng(ctx):
                 ctx.check(ok, 'seed-source:%s' % f.key, 'an RNG is seeded only in Builder::seeded, from the seed parameter', s.where(), show(t))
             if _is(n, SAMPLING):
                 n_sample += 1
-                recv = f.expr_operand(s.args[0], s.b, 'T') if s.args else ('unknown',)
+                # Rng::x(rng, ..) takes the generator first; Distribution::sample(distr, rng) second
+                ri = 1 if ('Distribution::sample' in n and len(s.args) > 1) else 0
+                recv = f.expr_operand(s.args[ri], s.b, 'T') if s.args else ('unknown',)
                 src_ok = _from_sim_rng(P, f, recv, 4)
                 ctx.touch(f)
                 ctx.check(src_ok, 'sample-source:%s' % f.key, 'random draws come from the simulation RNG (runtime::rng())', s.where(), show(recv))
@@ -114,6 +116,23 @@ def r2_seeded_executors(ctx):
             fb = [x for x in walk(arg) if x[0] == 'call' and 'from_bytes' in x[1]]
             if fb and any(x[0] == 'call' and x[1] in ('des::runtime::random', 'des::runtime::sample', RNG_FN) for x in walk(fb[0])):
                 ok = True
+        if not ok:
+            # statement form: `builder.rng_seed(seed); .. builder.build()` on the same builder value
+            def root_of(t):
+                t = peel(t)
+                while t[0] == 'call' and t[1].startswith('tokio::runtime::Builder::') and t[2] and not t[1].endswith(('new_current_thread', 'new_multi_thread')):
+                    t = peel(t[2][0])
+                return canon(t)
+            rb = root_of(recv)
+            for r in f.calls_to('tokio::runtime::Builder::rng_seed'):
+                if not (f.dominates(r.b, s.b) and r.b != s.b):
+                    continue
+                if root_of(f.expr_operand(r.args[0], r.b, 'T')) != rb:
+                    continue
+                arg = f.expr_operand(r.args[1], r.b, 'T')
+                fb = [x for x in walk(arg) if x[0] == 'call' and 'from_bytes' in x[1]]
+                if fb and any(x[0] == 'call' and x[1] in ('des::runtime::random', 'des::runtime::sample', RNG_FN) for x in walk(fb[0])):
+                    ok = True
         ctx.check(ok, 'unseeded-runtime:%s' % f.key,
                   'every tokio runtime is built with rng_seed(RngSeed::from_bytes(<draw from the simulation RNG>)) — otherwise select! branch choice differs between runs',
                   s.where(), detail)
